@@ -362,7 +362,28 @@ def run(ctx):
                     # d = len / 2 (truncating: the opaque half H = lin.len() div 2)
                     if d == HALF:
                         okp = True
-        if okp:
+        alt = False
+        if not okp:
+            # iterator form: lin.split_at(H) = (means, rest); means.zip(rest).map(|(m, v)| MeanVari(m, v))
+            retv = eb.at(None).local(0)
+            if retv[0] == "agg" and "parameters" in retv[3]:
+                pv = retv[2][retv[3].index("parameters")]
+                if pv[0] == "call" and pv[1].endswith("Iterator::collect") and pv[2][0][0] == "call" and pv[2][0][1].endswith("Iterator::map"):
+                    z, clo = pv[2][0][2]
+                    if z[0] == "call" and z[1].endswith("Iterator::zip") and clo[0] == "agg" and clo[1].startswith("closure:"):
+                        a_, b_ = z[2]
+
+                        def half(e, k):
+                            return (e[0] == "field" and e[2] == k and e[1][0] == "call" and e[1][1].endswith("split_at") and
+                                    show(e[1][2][0]) == "lin" and to_poly(e[1][2][1], atomize) == HALF)
+                        cb = p.bodies.get(clo[1][len("closure:"):])
+                        cr = ExprBuilder(cb).local(0) if cb is not None else ("unk",)
+                        pair = cr[0] == "agg" and cr[1].endswith("MeanVari::MeanVari") and len(cr[2]) == 2 and show(cr[2][0]) == "arg2.0" and show(cr[2][1]) == "arg2.1"
+                        if half(a_, "0") and half(b_, "1") and pair:
+                            okp = alt = True
+        if okp and alt:
+            ctx.ok("C04-R4", "from_linear: lin.split_at(len/2) = (means, rest); parameters = means.zip(rest).map(MeanVari): element i pairs lin[i] with lin[len/2 + i]", fl.loc())
+        elif okp:
             ctx.ok("C04-R4", "from_linear: parameters[i] = (lin[i], lin[i + lin.len()/2]): means first, then variances", fl.loc())
         else:
             ctx.fail("C04-R4", fl.path, "pairing", "from_linear does not pair lin[i] with lin[i + len]", fl.loc())
@@ -382,7 +403,9 @@ def run(ctx):
                 ctx.fail("C04-R4", fl.path, "msd", "msd is %s" % show(m)[:120], fl.loc())
         # loop covers 0..len
         rng = [x for bb, t in fl.calls() for x in walk(eb.at(bb).call(t)) if x[0] == "agg" and x[1].endswith("Range::Range")]
-        if any(x[2][0][0] == "c" and x[2][0][1] == 0 and to_poly(x[2][1], atomize) == HALF for x in rng):
+        if alt:
+            ctx.ok("C04-R4", "from_linear: the zip covers every element of the first half", fl.loc())
+        elif any(x[2][0][0] == "c" and x[2][0][1] == 0 and to_poly(x[2][1], atomize) == HALF for x in rng):
             ctx.ok("C04-R4", "from_linear: i ranges over 0..len", fl.loc())
         else:
             ctx.fail("C04-R4", fl.path, "range", "the pairing loop does not cover 0..len", fl.loc())
